@@ -328,3 +328,173 @@ func RunLine(h *Hist, ga *Gauge, free int) string {
 	}
 	return strings.Join(toks, " ")
 }
+
+// ---- saturated runs: hold every worker inside the guarded region until the limiter is observed full ----
+
+// BlockedIn reports whether some goroutine whose stack contains the frame substring is parked in a state
+// whose dump header starts with one of states ("chan send", "select", …). Used to observe "the dispatcher
+// waits for a free slot" instead of waiting out a quiet period.
+func BlockedIn(frame string, states ...string) bool {
+	buf := make([]byte, 1<<20)
+	buf = buf[:runtime.Stack(buf, true)]
+	for _, g := range strings.Split(string(buf), "\n\n") {
+		nl := strings.IndexByte(g, '\n')
+		if nl < 0 || !strings.Contains(g, frame) {
+			continue
+		}
+		for _, st := range states {
+			if strings.Contains(g[:nl], "["+st) {
+				return true
+			}
+		}
+	}
+	return false
+}
+
+// Saturator keeps the bodies of one run inside the guarded region (blocked on a plain channel receive) until
+// the run is saturated: more than `over` bodies inside at once (a cap violation is on record), all `items`
+// bodies inside, the dispatcher observed parked at its acquire (`full()`), or — last resort, never a verdict —
+// the deadline. After that the remaining bodies run through freely.
+type Saturator struct {
+	H       *Hist
+	Ga      *Gauge
+	entered int64
+	release chan struct{}
+	once    sync.Once
+	Reason  string
+}
+
+func NewSaturator() *Saturator {
+	return &Saturator{H: NewHist(0), Ga: &Gauge{}, release: make(chan struct{})}
+}
+
+func (s *Saturator) open(why string) {
+	s.once.Do(func() { s.Reason = why; close(s.release) })
+}
+
+// Body is the guarded function of item tid.
+func (s *Saturator) Body(r *verifh.Rng, tid, panPct int) {
+	id := strconv.Itoa(tid)
+	s.H.RecShared("+" + id)
+	s.Ga.Enter()
+	atomic.AddInt64(&s.entered, 1)
+	<-s.release
+	Hold(r)
+	if r.Intn(100) < panPct {
+		s.H.RecShared("!" + id)
+		s.Ga.Exit()
+		panic("c05: holder panics")
+	}
+	s.H.RecShared("-" + id)
+	s.Ga.Exit()
+}
+
+// Watch runs until the run is saturated (see Saturator) and opens the gate. Call it in its own goroutine;
+// stop ends it when the run is over.
+func (s *Saturator) Watch(over, items int, full func() bool, max time.Duration, stop <-chan struct{}) {
+	deadline := time.Now().Add(max)
+	for i := 0; ; i++ {
+		select {
+		case <-stop:
+			s.open("ended")
+			return
+		default:
+		}
+		switch {
+		case over >= 0 && s.Ga.Peak() > int64(over):
+			s.open("over")
+			return
+		case atomic.LoadInt64(&s.entered) >= int64(items):
+			s.open("all")
+			return
+		case i%8 == 7 && full != nil && full():
+			s.open("full")
+			return
+		case time.Now().After(deadline):
+			s.open("deadline")
+			return
+		}
+		if i < 64 {
+			runtime.Gosched()
+		} else {
+			time.Sleep(50 * time.Microsecond)
+		}
+	}
+}
+
+// Line formats the observation of a saturated run.
+func (s *Saturator) Line() string {
+	return RunLine(s.H, s.Ga, -1) + " sat=" + s.Reason
+}
+
+// ---- several instances in one section (state shared BETWEEN instances would show as cross-talk) ----
+
+// Multi starts one instance per entry of cfg `ns=<n0>,<n1>,…` (each with its own `n`) and routes every op to
+// the instance named by its second token (`try 2`, `finish 0 panic`), which is removed before the instance
+// sees the op.
+func Multi(cfg verifh.Cfg, start func(cfg verifh.Cfg) (func(op []string) string, func())) (func(op []string) string, func()) {
+	var steps []func(op []string) string
+	var dones []func()
+	for _, n := range strings.Split(cfg.Str("ns", ""), ",") {
+		c := verifh.Cfg{}
+		for k, v := range cfg {
+			if k != "ns" {
+				c[k] = v
+			}
+		}
+		c["n"] = n
+		st, dn := start(c)
+		steps, dones = append(steps, st), append(dones, dn)
+	}
+	step := func(op []string) string {
+		if len(op) < 2 {
+			return "bad-op"
+		}
+		i, err := strconv.Atoi(op[1])
+		if err != nil || i < 0 || i >= len(steps) {
+			return "bad-instance"
+		}
+		return steps[i](append([]string{op[0]}, op[2:]...))
+	}
+	return step, func() {
+		for _, d := range dones {
+			if d != nil {
+				d()
+			}
+		}
+	}
+}
+
+// MultiOps interleaves the op lists of several instances at random, inserting the instance number.
+func MultiOps(r *verifh.Rng, lists [][]string) []string {
+	var out []string
+	pos := make([]int, len(lists))
+	left := 0
+	for _, l := range lists {
+		left += len(l)
+	}
+	for left > 0 {
+		i := r.Intn(len(lists))
+		if pos[i] >= len(lists[i]) {
+			continue
+		}
+		// short bursts on one instance, so that instances sit full / empty while another one is worked on
+		for b := r.Range(1, 4); b > 0 && pos[i] < len(lists[i]); b-- {
+			f := strings.Fields(lists[i][pos[i]])
+			f = append([]string{f[0], strconv.Itoa(i)}, f[1:]...)
+			out = append(out, strings.Join(f, " "))
+			pos[i]++
+			left--
+		}
+	}
+	return out
+}
+
+// MultiNs renders the cfg value of `ns=`.
+func MultiNs(ns []int) string {
+	s := make([]string, len(ns))
+	for i, n := range ns {
+		s[i] = strconv.Itoa(n)
+	}
+	return strings.Join(s, ",")
+}
